@@ -91,17 +91,6 @@ Proof.
   - intros t th ts Ht Hp. exact (load_or_store_spec pd s1 t th ts Ht Hp).
 Qed.
 
-Lemma T_C13_refresher : forall (pd : nat -> Z) n es1 es2,
-  let s1 := fold_left (step_rstore pd (fun _ => false)) es1 (init_sys n) in
-  let s2 := fold_left (step_rstore pd (fun _ => false)) es2 s1 in
-  ole (lowres s1) (lowres s2) /\
-  (forall v, lowres s2 = Some v -> exists i, (i < issued s2)%nat /\ v = pd i).
-Proof.
-  intros pd n es1 es2.
-  assert (E : forall es s, fold_left (step_rstore pd (fun _ => false)) es s = run pd s es).
-  { induction es as [|e es IH]; intros s; cbn; auto. rewrite step_rstore_none. apply IH. }
-  cbv zeta. rewrite !E. exact (T_C13_lastts_monotone pd n es1 es2).
-Qed.
 
 Lemma T_C13_arrival_monotone : forall (pd : nat -> Z) (pd_ns : Z -> Z),
   (forall a b, a <= b -> pd_ns a <= pd_ns b) ->
@@ -187,21 +176,6 @@ Lemma T_C13_arrival_monotone_call_level : forall (pd_ns : Z -> Z), (forall a b, 
 Proof. intros pd_ns mono calls t0 r R F S. exact (proj2 (arrival_run pd_ns mono calls r t0 R F S)). Qed.
 
 
-(* refresh outcomes incl. failures: with nobody dropping entries the system is the real one *)
-Lemma T_C13_refresher_failure : forall (pd : nat -> Z) n es1 es2 t,
-  let s1 := fold_left (step_rdelete pd (fun _ => false)) es1 (init_sys n) in
-  let s2 := fold_left (step_rdelete pd (fun _ => false)) es2 s1 in
-  cell (step pd s1 (EvFail t)) = cell s1 /\
-  (lowres s1 <> None -> lowres s2 <> None) /\
-  ole (lowres s1) (lowres s2) /\
-  (forall v, lowres s2 = Some v -> exists i, (i < issued s2)%nat /\ v = pd i).
-Proof.
-  intros pd n es1 es2 t.
-  assert (E : forall es s, fold_left (step_rdelete pd (fun _ => false)) es s = run pd s es).
-  { induction es as [|e es IH]; intros s; cbn; auto. rewrite step_rdelete_none. apply IH. }
-  cbv zeta. rewrite !E. split; [apply fail_keeps_cell|].
-  destruct (T_C13_fresh_scope pd n es1 es2) as [_ [A [B [C _]]]]. auto.
-Qed.
 
 Lemma T_C13_commit_wait_registrations : forall regs max_sleep_ns fuel script,
   (0 <= cw_bound regs /\ (forall r, In r regs -> r <= cw_bound regs) /\ (cw_bound regs = 0 \/ In (cw_bound regs) regs)) /\
@@ -226,4 +200,58 @@ Proof.
   destruct (catches_up pd_ns s1 t ts I1 H) as [l [a [E L]]].
   pose proof (arec_run pd pd_ns mono es2 s1 I1) as M. fold s2 in M. rewrite E in M. unfold rec_le in M.
   destruct (arec s2) as [[l2 a2]|]; [|contradiction]. exists l2, a2. split; [reflexivity|lia].
+Qed.
+
+(* runs WITH a refresher: role is an arbitrary predicate on threads; refresher rounds can only be launched for a scope
+   that has an entry; the schedule is arbitrary and may contain PD failures of any thread *)
+Lemma run_role_app : forall pd role es1 es2 s,
+  run_role pd role (run_role pd role s es1) es2 = run_role pd role s (es1 ++ es2).
+Proof. intros. unfold run_role. rewrite fold_left_app. reflexivity. Qed.
+
+Lemma T_C13_refresher : forall (pd : nat -> Z) (role : nat -> bool) n es1 es2,
+  let s1 := run_role pd role (init_sys n) es1 in
+  let s2 := run_role pd role s1 es2 in
+  ole (lowres s1) (lowres s2) /\
+  (lowres s1 <> None -> lowres s2 <> None) /\
+  (forall v, lowres s2 = Some v -> exists i, (i < issued s2)%nat /\ v = pd i) /\
+  (forall t th, nth_error (thr s2) t = Some th -> role t = true ->
+     (tpc th <> PIdle -> lowres s2 <> None) /\ (forall ts, tpc th <> PLoadOrStore ts)).
+Proof.
+  intros pd role n es1 es2 s1 s2.
+  destruct (run_role_sim pd role es1 (init_sys n)) as [es1' E1].
+  destruct (run_role_sim pd role es2 s1) as [es2' E2]. fold s1 in E1. fold s2 in E2.
+  destruct (T_C13_fresh_scope pd n es1' es2') as [_ [A [B [C _]]]]. rewrite <- E1, <- E2 in A, B, C.
+  split; [exact B|split; [exact A|split; [exact C|]]].
+  intros t th Ht Hr. unfold s2, s1 in Ht. rewrite run_role_app in Ht. split.
+  - intros Hn. pose proof (role_ok_run pd role (es1 ++ es2) (init_sys n) (role_ok_init role n) t th Ht Hr Hn) as K.
+    unfold s2, s1. rewrite run_role_app. unfold lowres.
+    destruct (cell (run_role pd role (init_sys n) (es1 ++ es2))) as [[o v]|]; [discriminate|congruence].
+  - intros ts. exact (role_never_installs pd role n (es1 ++ es2) t th ts Ht Hr).
+Qed.
+
+(* a refresher round that was launched (it waits for PD) and whose PD request fails *)
+Lemma T_C13_refresher_failure : forall (pd : nat -> Z) (role : nat -> bool) n es t th es2,
+  let s := run_role pd role (init_sys n) es in
+  role t = true -> nth_error (thr s) t = Some th -> tpc th = PWaitPD ->
+  let s' := step_role pd role s (EvFail t) in
+  let s2 := run_role pd role s' es2 in
+  cell s' = cell s /\ lowres s <> None /\
+  (exists th', nth_error (thr s') t = Some th' /\ tpc th' = PDone None) /\
+  ole (lowres s) (lowres s2) /\ lowres s2 <> None /\
+  (forall v, lowres s2 = Some v -> exists i, (i < issued s2)%nat /\ v = pd i).
+Proof.
+  intros pd role n es t th es2 s Hr Ht Hp s' s2.
+  assert (L : lowres s <> None).
+  { pose proof (role_ok_run pd role es (init_sys n) (role_ok_init role n) t th Ht Hr) as K. rewrite Hp in K.
+    specialize (K ltac:(discriminate)). intros E. apply K. fold s. unfold lowres in E.
+    destruct (cell s) as [[o v]|]; [discriminate E|reflexivity]. }
+  assert (Es' : s' = step pd s (EvFail t)) by reflexivity.
+  split; [rewrite Es'; apply fail_keeps_cell|]. split; [exact L|]. split.
+  - rewrite Es'. cbn [step]. rewrite Ht, Hp. cbn [thr]. rewrite nth_error_set_nth, Nat.eqb_refl, Ht. eexists; split; reflexivity.
+  - destruct (run_role_sim pd role es (init_sys n)) as [es' E]. fold s in E.
+    destruct (run_role_sim pd role es2 s') as [es2' E2]. fold s2 in E2.
+    destruct (T_C13_fresh_scope pd n es' (EvFail t :: es2')) as [_ [A [B [C _]]]].
+    rewrite <- E in A, B, C.
+    change (run pd s (EvFail t :: es2')) with (run pd (step pd s (EvFail t)) es2') in A, B, C.
+    rewrite <- Es' in A, B, C. rewrite <- E2 in A, B, C. split; [exact B|split; [exact (A L)|exact C]].
 Qed.
